@@ -66,9 +66,16 @@ type Contract struct {
 	Loops    map[int]*LoopSpec
 	// veckernel sugar
 	Vec *VecSpec
+	// wraps callee(args): the contract is the callee's contract under the substitution params := args
+	Wrap *WrapSpec
 	// engine F / B annotations are kept raw
 	Raw map[string][]string
 	Props []string // property ids this contract serves
+}
+
+type WrapSpec struct {
+	Callee string
+	Args   []ast.Expr
 }
 
 type VecSpec struct {
@@ -192,7 +199,7 @@ func handleLine(cur **Contract, out *[]*Contract, pkgPath, text, line string) er
 	if i := strings.IndexAny(text, " \t"); i >= 0 {
 		kw, rest = text[:i], strings.TrimSpace(text[i+1:])
 	}
-	if kw == "spec" {
+	if kw == "spec" || kw == "ghost" {
 		return nil
 	}
 	if kw == "func" {
@@ -309,6 +316,16 @@ func handleLine(cur **Contract, out *[]*Contract, pkgPath, text, line string) er
 		default:
 			return fmt.Errorf("%s: unknown loop clause %q", line, f[1])
 		}
+	case "wraps":
+		e, err := parser.ParseExpr(rest)
+		if err != nil {
+			return fmt.Errorf("%s: %v", line, err)
+		}
+		call, ok := e.(*ast.CallExpr)
+		if !ok {
+			return fmt.Errorf("%s: wraps expects callee(args)", line)
+		}
+		c.Wrap = &WrapSpec{Callee: exprStringAST(call.Fun), Args: call.Args}
 	case "veckernel":
 		v := &VecSpec{}
 		for _, kv := range strings.Fields(rest) {
@@ -349,4 +366,14 @@ func handleLine(cur **Contract, out *[]*Contract, pkgPath, text, line string) er
 		c.Raw[kw] = append(c.Raw[kw], rest)
 	}
 	return nil
+}
+
+func exprStringAST(e ast.Expr) string {
+	switch x := e.(type) {
+	case *ast.Ident:
+		return x.Name
+	case *ast.SelectorExpr:
+		return exprStringAST(x.X) + "." + x.Sel.Name
+	}
+	return "?"
 }
